@@ -18,7 +18,7 @@ func init() {
 		if err != nil {
 			return err
 		}
-		c.EmitAllIntConsts(w, p, map[string]bool{"error_codes.go": true, "frames.go": true, "response_writer.go": true, "conn.go": true, "request_writer.go": true})
+		c.EmitAllIntConsts(w, p, map[string]bool{"error_codes.go": true, "frames.go": true, "response_writer.go": true, "conn.go": true, "request_writer.go": true, "server.go": true})
 		fd := p.FuncDecl("frameParser", "ParseNext")
 		if fd == nil {
 			return fmt.Errorf("http3: frameParser.ParseNext not found")
@@ -128,8 +128,130 @@ func init() {
 			return fmt.Errorf("http3: parseSettingsFrame not found")
 		}
 		_ = types.Typ
-		return nil
+		return emitUniCases(c, w, p)
 	})
+}
+
+// emitUniCases: the per-type bookkeeping of rawConn.handleUnidirectionalStream — for every stream
+// type literal: which atomic flag its first-stream check uses ("" = none) and the connection close
+// code for a server / for a client (-1 = the connection is not closed); plus the code the default
+// clause cancels the stream with.
+func emitUniCases(c *Ctx, w *LeanFile, p *Pkg) error {
+	fd := p.FuncDecl("rawConn", "handleUnidirectionalStream")
+	if fd == nil {
+		return fmt.Errorf("http3: rawConn.handleUnidirectionalStream not found")
+	}
+	var sw *ast.SwitchStmt
+	var after []ast.Stmt
+	for i, st := range fd.Body.List {
+		if s, ok := st.(*ast.SwitchStmt); ok {
+			if id, ok := s.Tag.(*ast.Ident); ok && id.Name == "streamType" {
+				sw = s
+				after = fd.Body.List[i+1:]
+			}
+		}
+	}
+	if sw == nil {
+		return fmt.Errorf("http3: handleUnidirectionalStream: `switch streamType` not found")
+	}
+	codeOf := func(n ast.Node) string { // first ErrCode… identifier below n
+		code := ""
+		ast.Inspect(n, func(m ast.Node) bool {
+			if id, ok := m.(*ast.Ident); ok && code == "" && strings.HasPrefix(id.Name, "ErrCode") {
+				code = id.Name
+			}
+			return true
+		})
+		return code
+	}
+	// flagAndCode: `if isFirst := c.<flag>.CompareAndSwap(false, true); !isFirst { close(code) }`
+	flagAndCode := func(stmts []ast.Stmt) (flag, code string) {
+		for _, st := range stmts {
+			is, ok := st.(*ast.IfStmt)
+			if !ok || is.Init == nil {
+				continue
+			}
+			ast.Inspect(is.Init, func(m ast.Node) bool {
+				if ce, ok := m.(*ast.CallExpr); ok {
+					if se, ok := ce.Fun.(*ast.SelectorExpr); ok && se.Sel.Name == "CompareAndSwap" {
+						if fe, ok := se.X.(*ast.SelectorExpr); ok {
+							flag = fe.Sel.Name
+						}
+					}
+				}
+				return true
+			})
+			if flag != "" {
+				code = codeOf(is.Body)
+				return
+			}
+		}
+		return
+	}
+	leanCode := func(id string) string {
+		if id == "" {
+			return "(-1)"
+		}
+		return leanIdent(id)
+	}
+	type row struct{ v, flag, cs, cc string }
+	var rows []row
+	defCancel := ""
+	for _, st := range sw.Body.List {
+		cc := st.(*ast.CaseClause)
+		if cc.List == nil {
+			ast.Inspect(cc, func(m ast.Node) bool {
+				if ce, ok := m.(*ast.CallExpr); ok {
+					if se, ok := ce.Fun.(*ast.SelectorExpr); ok && se.Sel.Name == "CancelRead" {
+						defCancel = codeOf(ce)
+					}
+				}
+				return true
+			})
+			continue
+		}
+		flag, code := flagAndCode(cc.Body)
+		cs, ccl := code, code
+		falls := true // an empty clause (no return) continues after the switch
+		for _, b := range cc.Body {
+			if _, ok := b.(*ast.ReturnStmt); ok {
+				falls = false
+			}
+			if is, ok := b.(*ast.IfStmt); ok && is.Init == nil {
+				if id, ok := is.Cond.(*ast.Ident); ok && id.Name == "isServer" {
+					cs = codeOf(is.Body)
+					if is.Else != nil {
+						ccl = codeOf(is.Else)
+					}
+					falls = false
+				}
+			}
+		}
+		if falls && flag == "" {
+			flag, code = flagAndCode(after)
+			cs, ccl = code, code
+		}
+		for _, e := range cc.List {
+			tv, ok := p.Info.Types[e]
+			if !ok || tv.Value == nil {
+				return fmt.Errorf("http3: handleUnidirectionalStream: non-constant case label")
+			}
+			rows = append(rows, row{constant.ToInt(tv.Value).ExactString(), flag, leanCode(cs), leanCode(ccl)})
+		}
+	}
+	sort.Slice(rows, func(i, j int) bool { return rows[i].v < rows[j].v })
+	w.P("/-- %s `rawConn.handleUnidirectionalStream`: stream type ↦ (first-stream flag or \"\", close code as server, as client) -/", c.pos(fd.Pos()))
+	var sb strings.Builder
+	for i, r := range rows {
+		if i > 0 {
+			sb.WriteString(", ")
+		}
+		fmt.Fprintf(&sb, "(%s, %q, %s, %s)", r.v, r.flag, r.cs, r.cc)
+	}
+	w.P("def uniStreamCases : List (Nat × String × Int × Int) := [%s]", sb.String())
+	w.P("/-- the default clause cancels reading of the stream with this code -/")
+	w.P("def uniStreamDefaultCancel : Int := %s", leanCode(defCancel))
+	return nil
 }
 
 // classifyParseCase names the outcome of one case clause of ParseNext's switch.
